@@ -201,9 +201,24 @@ fn hosts(x: &X) -> X {
     })
 }
 
+/// `ctl.uri`: the argument parser of `clear response` alone: `Uri::builder().path_and_query(s).build()` and then
+/// `(uri.path(), uri.query())`; `(L)` = `Err`.  Input bytes that are not UTF-8 are out of domain (the plugin gets a `&str`).
+fn uri(x: &X) -> X {
+    let b = match x.as_b() {
+        Some(b) => b,
+        None => return X::bad(),
+    };
+    let s = match std::str::from_utf8(b) {
+        Ok(s) => s,
+        Err(_) => return ood(),
+    };
+    X::opt(Uri::builder().path_and_query(s).build().ok().map(|u| X::L(vec![X::b(u.path()), X::opt(u.query().map(X::b))])))
+}
+
 pub fn dispatch(comp: &str, x: &X) -> Option<X> {
     Some(match comp {
         "ctl.hosts" => hosts(x),
+        "ctl.uri" => uri(x),
         _ => return None,
     })
 }
